@@ -10,6 +10,7 @@ package main
 //      response must be the model's response for its own request.
 
 import (
+	"github.com/chihaya/chihaya/storage/redis"
 	"context"
 	"encoding/binary"
 	"fmt"
@@ -459,6 +460,9 @@ func runC04(c *Ctx) {
 	for i := 0; i < c.N/100+5; i++ {
 		redisSchedRound(c, r, i)
 	}
+	for i := 0; i < c.N/3000+2; i++ {
+		redisGcStorm(c, r, i)
+	}
 	for _, pre := range []string{"E", "-", "E,S,E"} {
 		udpOverlap(c, pre, 12)
 	}
@@ -674,4 +678,122 @@ func redisSchedRound(c *Ctx, r *Rng, round int) {
 	c.Kind("redis-sched")
 	storeOp(c, "st.dump", map[string]string{})
 	storeOp(c, "st.totals", map[string]string{"inst": "0"})
+}
+
+// redisGcStorm: three tracker instances on one Redis. A few swarms hold peers whose last announce is old. Then, truly
+// concurrently: four workers re-announce their own old peers and go on deleting and re-announcing them (all on the same
+// few swarms), while TWO instances run expiry passes in a loop with a cutoff between the old and the new time. Whatever
+// the interleaving, the outcome is determined: a worker's peer is there iff its last operation was an announce (its
+// first operation is an announce, after which no pass may remove it), the abandoned old peers are gone, the counters
+// are the recount and, after one more pass at rest, exactly the non-empty swarms are registered. The model gets the
+// workers' programs one after the other, then one pass.
+func redisGcStorm(c *Ctx, r *Rng, round int) {
+	storeOp(c, "st.reset", map[string]string{"n": "1", "kind": "redis", "instances": "3"})
+	t0 := int64(1700000000e9) + int64(round)*1e9
+	storeOp(c, "st.clock", map[string]string{"t": strconv.FormatInt(t0-100e9, 10)})
+	const workers, perWorker, rounds = 4, 6, 10
+	var ihs []string
+	for k := 0; k < 3; k++ {
+		ihs = append(ihs, hx(r.Bytes(20)))
+	}
+	type own struct {
+		ih, pk string
+		seeder bool
+	}
+	mk := func(w, k int) own {
+		var pk []byte
+		if (w+k)%3 == 0 {
+			pk = append(append(r.Bytes(20), 0x1a, 0xe1), append([]byte{0x20, 0x01, 0x0d, 0xb8}, append(make([]byte, 10), byte(w), byte(k))...)...)
+		} else {
+			pk = append(append(r.Bytes(20), 0x1a, 0xe1), 10, byte(w), 0, byte(k))
+		}
+		return own{ihs[r.Intn(len(ihs))], hx(pk), r.Bool()}
+	}
+	putOp := func(o own) string {
+		if o.seeder {
+			return "st.put_seeder"
+		}
+		return "st.put_leecher"
+	}
+	delOp := func(o own) string {
+		if o.seeder {
+			return "st.del_seeder"
+		}
+		return "st.del_leecher"
+	}
+	owned := make([][]own, workers)
+	for w := 0; w < workers; w++ {
+		for k := 0; k < perWorker; k++ {
+			o := mk(w, k)
+			owned[w] = append(owned[w], o)
+			storeOp(c, putOp(o), map[string]string{"ih": o.ih, "pk": o.pk, "inst": "0"})
+		}
+	}
+	for k := 0; k < 8; k++ { // old peers nobody comes back for
+		o := mk(9, k)
+		storeOp(c, putOp(o), map[string]string{"ih": o.ih, "pk": o.pk, "inst": "0"})
+	}
+	storeOp(c, "st.clock", map[string]string{"t": strconv.FormatInt(t0, 10)})
+	cutoff := t0 - 50e9
+	type rec struct{ line, obs string }
+	logs := make([][]rec, workers)
+	plans := make([][]bool, workers) // per worker and round: delete after announcing?
+	for w := range plans {
+		for i := 0; i < rounds*perWorker; i++ {
+			plans[w] = append(plans[w], r.Intn(3) == 0)
+		}
+	}
+	var wg sync.WaitGroup
+	var done int32
+	rc := &recCtx{}
+	for w := 0; w < workers; w++ {
+		wg.Add(1)
+		go func(w int) {
+			defer wg.Done()
+			for i := 0; i < rounds; i++ {
+				for k, o := range owned[w] {
+					a := map[string]string{"ih": o.ih, "pk": o.pk, "inst": strconv.Itoa(w % 2)}
+					l, ob := rc.run(putOp(o), a)
+					logs[w] = append(logs[w], rec{l, ob})
+					if plans[w][i*perWorker+k] {
+						l, ob = rc.run(delOp(o), a)
+						logs[w] = append(logs[w], rec{l, ob})
+					}
+				}
+			}
+		}(w)
+	}
+	var gcWG sync.WaitGroup
+	gcErr := make([]string, 2)
+	for g := 0; g < 2; g++ {
+		gcWG.Add(1)
+		go func(g int) {
+			defer gcWG.Done()
+			defer func() {
+				if p := recover(); p != nil {
+					gcErr[g] = "PANIC"
+				}
+			}()
+			for atomic.LoadInt32(&done) == 0 {
+				if err := redis.VerifCollectGarbage(rig.all[1+g], cutoff); err != nil {
+					gcErr[g] = "err"
+				}
+			}
+		}(g)
+	}
+	wg.Wait()
+	atomic.StoreInt32(&done, 1)
+	gcWG.Wait()
+	for w := range logs {
+		for _, e := range logs[w] {
+			c.Emit(e.line, e.obs)
+		}
+	}
+	if gcErr[0]+gcErr[1] != "" {
+		c.Emit("st.gc cutoff="+strconv.FormatInt(cutoff, 10)+" inst=1", "concurrent-pass-failed:"+gcErr[0]+gcErr[1])
+	}
+	storeOp(c, "st.gc", map[string]string{"cutoff": strconv.FormatInt(cutoff, 10), "inst": "0"})
+	storeOp(c, "st.dump", map[string]string{})
+	storeOp(c, "st.totals", map[string]string{"inst": "0"})
+	c.Kind("redis-gc-storm")
 }
